@@ -41,6 +41,8 @@ class Profile:
         self.macros = True
         self.liquid_tag = True
         self.captures_inspected = True  # may expressions inspect captured text?
+        self.partial_prefix = ""  # e.g. "snippets/"
+        self.partial_suffix = ""  # e.g. ".html"
         self.__dict__.update(kw)
 
 
@@ -574,10 +576,11 @@ class Gen:
         if k == "partial":
             self.n_partials += 1
             tag = "render" if (isolated or r.random() < 0.5) else "include"
-            name = f"part{len(self.partials)}"
+            name = f"{self.p.partial_prefix}part{len(self.partials)}{self.p.partial_suffix}"
             mode = r.choice([None, None, "with", "for"])
             alias = None
             arg = None
+            plain = not (self.p.partial_prefix or self.p.partial_suffix)
             e2 = dict(env) if tag == "include" else {n: t for n, t in env.items() if n in ALL_NAMES and False}
             if tag == "render":
                 # a rendered partial sees globals only: type info of data variables
@@ -587,12 +590,12 @@ class Gen:
                 arg = self.prim(ty, env, loop)
                 if isinstance(arg, M.Lit) and arg.value is None:
                     arg = self.lit(ty)
-                alias = r.choice([None, "item", self.name_for(ty)])
+                alias = r.choice([None, "item", self.name_for(ty)] if plain else ["item", self.name_for(ty)])
                 e2[alias or name] = ty
             elif mode == "for":
                 lty = r.choice(["ints", "strs"])
                 arg = self.var_of(lty, env) or M.Var(POOL[lty][0])
-                alias = r.choice([None, "item", "i"])
+                alias = r.choice([None, "item", "i"] if plain else ["item", "i"])
                 e2[alias or name] = "int" if lty == "ints" else "str"
             kwargs = []
             if r.random() < 0.4:
